@@ -23,7 +23,7 @@ func init() {
 		Rule: "inheritance configurations: chains of 1-4 templates x block names {a,b} (and {a,b,c} for chains <= 3) x per level and name {absent, override, override + parent() before/after}, rendered from the leaf and from every intermediate template (exhaustive); " +
 			"the same with a use-import at one level (with/without alias, colliding names); random larger shapes (nested blocks, blocks in loops, block(name), parent named by a concatenation or a conditional, content outside blocks). Every block body calls who() which logs Context.Name(). " +
 			"Oracle: resolution model from the statement (first definition in [own, used, parent's own, ...]; parent() = next definition after the current one; child content outside blocks dropped; who() = defining template). " +
-			"Non-trivial: chain length >= 3 or a use, with at least one parent() that has an ancestor definition; distinct by configuration.",
+			"Non-trivial: chain length >= 3 or a use, with at least one parent() that has an ancestor definition; distinct by configuration. Also: overrides of the block rendered inside a loop print the loop variable and metadata; a helper block imported under a different alias at each using level, onto names the chain defines itself; large instances (chains of 8 / 17 / 40 templates, 700 blocks in one pair).",
 		Assumptions: []string{"reference resolution model trusted; at most one use per template (Twig and stick order several uses differently, the statement is silent)"},
 	}
 	sub := NewSub(p, "inherit", func(c *Ctx, cs *c09Case) *Fail {
@@ -126,7 +126,7 @@ func init() {
 		Technique: "property-based testing (rapid): generated hosts including/embedding generated targets in every form and call site vs reference evaluator (output, probe() of host variables afterwards, who())",
 		Rule: "programs with include/embed x {plain, with, only, with+only} at top level, in loops, blocks and macro bodies; targets print and probe host variables, set names that collide with host variables, include lower-numbered targets, extend a base layout, define blocks whose names collide with host blocks; embed bodies override subsets of blocks (with parent()); after every step the host probes its variables. " +
 			"Oracle: reference evaluator (target context = host variables unless only, overlaid with the with-hash; host scope unchanged; embed resolves against [overrides, target chain] only). " +
-			"Non-trivial: an include or embed executed together with a with-hash, an only, or an embed override; distinct by program.",
+			"Non-trivial: an include or embed executed together with a with-hash, an only, or an embed override; distinct by program. Also: loops around call sites over lists with null elements; blocks nested inside embed overrides whose names the host defines too; large instances (include chains 60 deep, 2000 includes in a loop).",
 		Assumptions: []string{"reference evaluator trusted; includes inside macro bodies use 'only' (stick exposes caller variables inside macros, Twig does not; the statement is silent)"},
 	}
 	sub := modelSub(p, "include", compareOpts{}, func(cs *progCase, res *m.Result) bool {
@@ -151,7 +151,7 @@ func init() {
 		Technique: "property-based testing (rapid): generated macro libraries and calls through _self, import alias and from-import vs reference evaluator",
 		Rule: "macro definitions with 0-4 parameters; calls with 0-6 arguments through _self, an import alias and from-import (plain and renamed); local macros calling lower-numbered local macros; calls inside loops, captures, filters, concatenations and other calls' arguments; results printed, assigned and passed on; the same macro through two forms with equal arguments; unknown macro of an imported set; who() in macro bodies. " +
 			"Oracle: reference evaluator (positional binding, missing -> null, surplus ignored, result is a string value, unknown macro through an alias -> error, who() = defining template). " +
-			"Non-trivial: an arity mismatch occurred, or a macro was called through >= 2 forms, or its result was used as a value; distinct by program.",
+			"Non-trivial: an arity mismatch occurred, or a macro was called through >= 2 forms, or its result was used as a value; distinct by program. Also: the caller has variables named like the callees' parameters; unknown-macro calls inside argument lists of macros, functions and filters; a local macro named like a from-import; large instances (900 macros in a library, 70 parameters).",
 		Assumptions: []string{"reference evaluator trusted; imported macros do not use _self (excluded by the statement)"},
 	}
 	sub := modelSub(p, "macro", compareOpts{}, func(cs *progCase, res *m.Result) bool {
